@@ -24,7 +24,9 @@ RULE = ("stream 1: three valid base documents per kind (rule, correlation, filte
         "special values (UUID spellings, calendar edge dates, int()/timespan spellings, condition strings and maps, log sources, "
         "detection sections) + key renames (non-string keys, modifier chains) + seeded multi-point mutations; fixed sub-stream of the "
         "places where exceptions used to escape (N1-N9); collections: global/repeat/reset sequences, filters next to rules, every "
-        "sampled document as one-document collection, seeded document pairs; distinct = distinct (kind, document); "
+        "sampled document as one-document collection, seeded document pairs; collections loaded with reference resolution (kind collection_refs): "
+        "references present / missing / partly missing by name and by id, nested correlations, extended conditions, erroneous referenced rules, "
+        "seeded mixes; distinct = distinct (kind, document); "
         "non-trivial = a mutated (not the base) document")
 ASSUMPTIONS = [
     "documents are YAML-representable Python values (no custom tags); loading goes through from_dict / SigmaCollection.from_dicts",
@@ -213,10 +215,54 @@ COLLECTIONS = [
 ]
 
 
+ID1, ID2, ID3 = UUID_, "08fbc97d-0a2f-491c-ae21-8ffcfd3174e9", "11111111-2222-3333-4444-555555555555"
+
+
+def _rule(**kw):
+    return dict(RULE_, **kw)
+
+
+def _corr(rules=None, cond=None, ctype="event_count", **kw):
+    c = {"type": ctype, "timespan": "1m"}
+    if rules is not None:
+        c["rules"] = rules
+    c["condition"] = cond if cond is not None else {"gte": 1}
+    return dict({"title": "C", "correlation": c}, **kw)
+
+
+# collections loaded with reference resolution (the default): references present / missing / partly missing, by name and by id
+REFS = [
+    [_rule(name="r1"), _corr(["r1"])], [_rule(name="r1"), _corr(["r2"])], [_rule(name="r1"), _rule(name="r2"), _corr(["r1", "r2"])],
+    [_rule(name="r1"), _corr(["r1", "r2"])], [_rule(name="r1"), _corr(["r2", "r1"])], [_corr(["r1"]), _rule(name="r1")], [_corr(["r1"])], [_corr([])], [_corr("r1"), _rule(name="r1")],
+    [_rule(id=ID1), _corr([ID1])], [_rule(id=ID1), _corr([ID2])], [_rule(id=ID1), _corr([ID1.upper()])], [_rule(id=ID1.upper()), _corr(["{" + ID1 + "}"])],
+    [_rule(id=ID1), _corr(["urn:uuid:" + ID1, ID1.replace("-", "")])], [_rule(id=ID1, name="r1"), _corr([ID1, "r1"])], [_rule(id=ID1, name="r1"), _corr([ID1, "r2"])],
+    [_rule(id=ID1, name="r1"), _corr(["r1", ID2])], [_rule(name=ID1), _corr([ID1])], [_rule(id=ID1, name=ID2), _corr([ID2])], [_rule(id="not-a-uuid"), _corr(["not-a-uuid"])],
+    [_rule(id="not-a-uuid", name="not-a-uuid"), _corr(["not-a-uuid"])], [_rule(name=""), _corr([""])], [_rule(name="r1"), _corr(["R1"])], [_rule(name="r1 "), _corr(["r1"])],
+    [_rule(name="r1"), _corr(["r1"], name="c1"), _corr(["c1"], title="C2")], [_rule(name="r1"), _corr(["c2"], name="c1"), _corr(["c1"], name="c2")], [_corr(["c1"], name="c1")],
+    [_rule(name="r1"), _corr(["r1"], name="c1", id=ID2), _corr([ID2, "r1"], title="C2")], [_rule(name="r1"), _corr(["r1"], id=ID2), _corr([ID3], title="C2")],
+    [_rule(name="r1"), _rule(name="r2"), _corr(None, "r1 and not r2", "temporal")], [_rule(name="r1"), _corr(None, "r1 and not r2", "temporal")], [_rule(name="r1"), _corr(None, "r1 or r1", "temporal_ordered")],
+    [_rule(name="r1"), _rule(name="r2"), _corr(["r1", "r2"], "r1 and r2", "temporal")], [_rule(name="r1"), _corr(["r1", "r2"], "r1 and r2", "temporal")],
+    [_rule(name="r1"), _corr(None, "r1 and", "temporal")], [_rule(name="and"), _corr(None, "and", "temporal")], [_rule(name="r1"), _corr(None, None, "temporal")],
+    # rules loaded with errors are still registered in collecting mode
+    [_rule(name="r1", title=5), _corr(["r1"])], [_rule(name="r1", detection=5), _corr(["r1"])], [_rule(name=5), _corr(["5"])], [_rule(name=["r1"]), _corr(["r1"])],
+    [_rule(id=5), _corr(["5"])], [_rule(id=ID1, level="bogus"), _corr([ID1])], [_rule(name="r1"), _corr(["r1"], title=None)], [_rule(name="r1"), _corr(["r2"], title=None)],
+    [_rule(name="r1"), _corr(["r1", 5])], [_rule(name="r1"), _corr({"r1": 1})], [_rule(name="r1"), _corr(["r1"], cond={"gte": "x"})], [_rule(name="r1"), _corr(["r2"], cond={"gte": "x"})],
+    [_rule(name="r1"), _corr(["r1"], generate="yes")], [_rule(name="r1"), _corr(["r1"], ctype="bogus")], [_rule(name="r1"), _corr(["r2"], ctype="value_count")],
+    [_rule(name="r1"), _corr(["r1"], "r1", "temporal"), 5], [5, _rule(name="r1"), _corr(["r2"])], [_rule(name="r1"), {"action": "bogus"}, _corr(["r2"])],
+    # global / repeat documents define the referenced names; filters are never referenced
+    [{"action": "global", "name": "g"}, _rule(), _corr(["g"])], [{"action": "global", "id": ID1}, _rule(), _rule(title="t2"), _corr([ID1])],
+    [_rule(name="r1"), {"action": "repeat", "name": "r2"}, _corr(["r1", "r2"])], [_rule(name="r1"), {"action": "repeat", "name": "r2"}, _corr(["r1"])],
+    [dict(FILT_, name="f1"), _corr(["f1"])], [_rule(name="r1"), dict(FILT_, name="f1"), _corr(["r1"])], [_rule(name="r1"), FILT_, _corr(["r2"])],
+    [_rule(name="r1"), _corr(["r1"]), _corr(["zz"], title="C2"), _corr(["yy"], title="C3")], [_rule(name="r1"), _rule(name="r1", title="again"), _corr(["r1"])],
+]
+
+
 def gen_cases(tier, seed, gen, effort):
     rnd = random.Random(seed * 10007 + 7)
     thorough = tier == "thorough"
     cases = []
+    for doc in REFS:
+        cases.append({"kind": "collection_refs", "doc": doc, "mut": "refs"})
     for kind, doc in ESCAPES:
         cases.append({"kind": kind, "doc": doc, "mut": "escape"})
     for doc in COLLECTIONS:
@@ -266,6 +312,24 @@ def gen_cases(tier, seed, gen, effort):
         pre = rnd.choice([[], [{"action": "global", "title": "G", "level": "low", "logsource": {"product": "p"}}], [{"action": "global", "detection": {"extra": {"z": 1}}}]])
         mid = rnd.choice([[], [{"action": "reset"}], [{"action": "repeat", "status": "stable", "detection": {"more": ["kw"]}}]])
         cases.append({"kind": "collection", "doc": pre + [a] + mid + [b], "mut": "pair-collection"})
+    # with reference resolution: the fixed collections, and seeded mixes of reference cases with mutated documents
+    for c in [c for c in cases if c["kind"] == "collection" and c["mut"] in ("escape", "collection2")]:
+        cases.append({"kind": "collection_refs", "doc": c["doc"], "mut": "refs-" + c["mut"]})
+    names = ["r1", "r2", "c1", ID1, ID2, "nm", "cn", "0e95725d-7320-415d-80f7-004da920fc11", "929a690e-bef0-4204-a928-ef5e620d6fcc"]
+    for _ in range((250 if not thorough else 2500) * effort):
+        docs = []
+        for _ in range(rnd.randint(1, 4)):
+            r = rnd.random()
+            if r < 0.35:
+                docs.append(_rule(**{rnd.choice(["name", "id"]): rnd.choice(names)}))
+            elif r < 0.7:
+                docs.append(_corr(rnd.choice([None] + [rnd.sample(names, rnd.randint(0, 3)) for _ in range(3)]),
+                                  rnd.choice([None, {"gte": 1}, "r1 and r2", "r1 or c1", "r1"]), rnd.choice(["event_count", "temporal", "temporal_ordered", "value_count"]),
+                                  **rnd.choice([{}, {"name": rnd.choice(names)}, {"id": rnd.choice(names)}])))
+            else:
+                docs.append(rnd.choice(singles)["doc"])
+        rnd.shuffle(docs)
+        cases.append({"kind": "collection_refs", "doc": docs, "mut": "refs-random"})
     for kind, bases in BASES.items():
         for base in bases:
             cases.append({"kind": kind, "doc": base, "mut": "base"})
@@ -300,6 +364,8 @@ def load(kind, doc, collect):
         return SigmaCorrelationRule.from_dict(doc, collect_errors=collect)
     if kind == "filter":
         return SigmaFilter.from_dict(doc, collect_errors=collect)
+    if kind == "collection_refs":    # the default: rule references of correlation rules are resolved
+        return SigmaCollection.from_dicts(doc if isinstance(doc, list) else [doc], collect_errors=collect)
     return SigmaCollection.from_dicts(doc if isinstance(doc, list) else [doc], collect_errors=collect, resolve_references=False)
 
 
